@@ -11,7 +11,7 @@ Definition sk_execv : fn_skel := {| sk_name := "execv"; sk_nparams := 2; sk_body
  (SExpr (XCall "snoopy_entrypoint_execve_wrapper_init" [(XParam 0); (XParam 1); (XVar "envp")]));
  (SExpr (XCall "snoopy_action_log_syscall_exec" []));
  (SExpr (XCall "snoopy_entrypoint_execve_wrapper_exit" []));
- (SReturn (Some (XCallPtr (XDeref (XVar "func")) [(XParam 0); (XParam 1)])))] |}.
+ (SReturn (Some (XCallPtr (XVar "func") [(XParam 0); (XParam 1)])))] |}.
 
 Definition sk_execve : fn_skel := {| sk_name := "execve"; sk_nparams := 3; sk_body :=
  [(SDecl "func" false None);
@@ -19,7 +19,7 @@ Definition sk_execve : fn_skel := {| sk_name := "execve"; sk_nparams := 3; sk_bo
  (SExpr (XCall "snoopy_entrypoint_execve_wrapper_init" [(XParam 0); (XParam 1); (XParam 2)]));
  (SExpr (XCall "snoopy_action_log_syscall_exec" []));
  (SExpr (XCall "snoopy_entrypoint_execve_wrapper_exit" []));
- (SReturn (Some (XCallPtr (XDeref (XVar "func")) [(XParam 0); (XParam 1); (XParam 2)])))] |}.
+ (SReturn (Some (XCallPtr (XVar "func") [(XParam 0); (XParam 1); (XParam 2)])))] |}.
 
 Definition sk_wrapper_init : fn_skel := {| sk_name := "snoopy_entrypoint_execve_wrapper_init"; sk_nparams := 3; sk_body :=
  [(SExpr (XCall "snoopy_init" []));
